@@ -718,11 +718,13 @@ namespace Clipper2Lib {
   {
     typename Path<T>::size_type idx = 0;
     double max_d = 0;
-    while (end > begin && path[begin] == path[end]) flags[end--] = false;
+    // when both ends coincide there is no line: use the distance from that point
+    const bool ends_coincide = (path[begin] == path[end]);
     for (typename Path<T>::size_type i = begin + 1; i < end; ++i)
     {
       // PerpendicDistFromLineSqrd - avoids expensive Sqrt()
-      double d = PerpendicDistFromLineSqrd(path[i], path[begin], path[end]);
+      double d = ends_coincide ? DistanceSqr(path[i], path[begin]) :
+        PerpendicDistFromLineSqrd(path[i], path[begin], path[end]);
       if (d <= max_d) continue;
       max_d = d;
       idx = i;
